@@ -68,13 +68,17 @@ def election(chk, repo):
     f = repo.func(sym)
     chk.analysed(sym)
     cfg = CFG(f, raises="call")
-    ren = [n for n in cfg.nodes if n.expr is not None and find(
-        "os.rename(tmpdir, lockdir)", n.expr)]
     mk = [n for n in cfg.nodes if n.kind == "stmt" and match_stmt(
         "tmpdir = tempfile.mkdtemp(dir='/run/lock')", n.stmt) is not None]
+    need(len(mk) == 1, f"{sym}: private directory not found")
+    tmpdir = mk[0].stmt.targets[0].id
+    ren = [n for n in cfg.nodes if n.expr is not None and find(
+        f"os.rename(@{tmpdir}, $target)", n.expr)]
+    need(len(ren) == 1, f"{sym}: election not found")
+    lockdir = unparse(find(f"os.rename(@{tmpdir}, $target)",
+                           ren[0].expr)[0][1]["target"])
     tok = [n for n in cfg.nodes if n.expr is not None and find(
-        "self.get_ethertype(tmpdir)", n.expr)]
-    need(len(ren) == 1 and len(mk) == 1, f"{sym}: election not found")
+        f"self.get_ethertype(@{tmpdir})", n.expr)]
     ok = len(tok) == 1 and cfg.dominates(mk[0], tok[0]) and cfg.dominates(
         tok[0], ren[0]) and tok[0] is not ren[0]
     chk.ob("R23.1", sym, "the directory renamed onto the well-known name "
@@ -86,11 +90,11 @@ def election(chk, repo):
     need(isinstance(tr, ast.Try) and tr.orelse and tr.handlers,
          f"{sym}: election try/except/else shape")
     h = tr.handlers[0]
-    ok = unparse(h.type) == "OSError" and bool(find("shutil.rmtree(tmpdir)",
-                                                    h))
+    ok = unparse(h.type) == "OSError" and bool(find(
+        f"shutil.rmtree(@{tmpdir})", h))
     chk.ob("R23.1", sym, "the loser removes its private directory and takes "
            "a lock file in the winner's", ok and bool(find(
-               "self.get_ethertype(lockdir)", h)), h,
+               f"self.get_ethertype(@{lockdir})", h)), h,
            "rmtree(tmpdir); get_ethertype(lockdir)")
     win = tr.orelse
     ok = bool(find("create_map(MapType.PROG_ARRAY, 4, 4, self.MAX_PROGS)",
